@@ -336,10 +336,13 @@ class Validation:
         """
         ignore_geom = False
         fixed = None
-        if validator.LINESTRING_ONLY and not isinstance(geom, LineString):
-            # Do not pass invalid geometry types to most validators. There's
+        if validator.LINESTRING_ONLY and (
+            not isinstance(geom, LineString) or geom.is_empty
+        ):
+            # Do not pass invalid geometry types or empty LineStrings (no
+            # endpoints, no trace candidates) to most validators. There's
             # already a error string in current_errors for e.g. MultiLineString
-            # or empty geom rows.
+            # or empty geom rows if the major validators were chosen.
             if isinstance(geom, MultiLineString):
                 log.debug("MultiLineString geometry with validator ls only.")
             return geom, current_errors, True
